@@ -112,7 +112,52 @@ def calls_in(node, name):
                                                                          (isinstance(c.func, ast.Attribute) and c.func.attr == name))]
 
 
+def r7_base_type_resolution(res):
+    """Every aggregate whose base type is given by name resolves it through Type.get_type(), i.e. through (name, scope).  The result
+    may be remembered only under a key that contains every attribute of self the look-up reads (self._typedef *and* self._scope): a
+    table keyed by the name alone hands an aggregate of another schema the class of the first schema that used the name."""
+    path = os.path.join(PKG, "BaseType.py")
+    rel = "src/exp2python/python/stepcode/BaseType.py"
+    try:
+        tree = ast.parse(open(path, encoding="utf-8").read())
+    except (OSError, SyntaxError) as e:
+        res.broke("cannot parse %s: %s" % (rel, e))
+        return
+    cls = [n for n in tree.body if isinstance(n, ast.ClassDef) and n.name == "Type"]
+    gt = [m for c in cls for m in c.body if isinstance(m, ast.FunctionDef) and m.name == "get_type"]
+    if not gt:
+        res.broke("anchor vanished: Type.get_type in %s" % rel)
+        return
+    m = gt[0]
+    reads = sorted({"self." + n.attr for n in ast.walk(m) if isinstance(n, ast.Attribute) and isinstance(n.value, ast.Name) and n.value.id == "self"
+                    and isinstance(n.ctx, ast.Load) and n.attr in ("_typedef", "_scope")})
+    # the scope must take part in the look-up at all
+    uses_scope = "self._scope" in reads and any(isinstance(n, ast.Call) and isinstance(n.func, ast.Name) and n.func.id == "vars" and "self._scope" in src(n) for n in ast.walk(m))
+    res.add("R7.type_resolved_in_its_scope", "R7|%s|Type.get_type|scope" % rel, "%s:%d" % (rel, m.lineno), uses_scope,
+            "a type name is looked up in vars(self._scope)" if uses_scope else "Type.get_type no longer looks the name up in the aggregate's own scope")
+    # memo tables: subscript stores / loads on something that is not a local computed from the scope
+    bad = None
+    for n in ast.walk(m):
+        tgt = None
+        if isinstance(n, ast.Assign) and len(n.targets) == 1 and isinstance(n.targets[0], ast.Subscript):
+            tgt = n.targets[0]
+        elif isinstance(n, ast.Call) and isinstance(n.func, ast.Attribute) and n.func.attr in ("setdefault", "__setitem__") and n.args:
+            tgt = n
+        if tgt is None:
+            continue
+        key_src = src(tgt.slice) if isinstance(tgt, ast.Subscript) else src(n.args[0])
+        missing = [r for r in reads if r.replace(" ", "") not in key_src]
+        if missing:
+            bad = (n, key_src, missing)
+    ok = bad is None
+    res.add("R7.memo_key_complete", "R7|%s|Type.get_type|memo" % rel, "%s:%d" % (rel, bad[0].lineno if bad else m.lineno), ok,
+            "get_type keeps no table of resolved types (or keys it by everything the look-up reads: %s)" % reads if ok else
+            "get_type remembers its result under the key `%s`, which does not contain %s although the look-up reads it: the same type name in "
+            "another scope gets the class resolved for the first scope" % (bad[1], bad[2]))
+
+
 def run(prog, res, tier):
+    r7_base_type_resolution(res)
     path = os.path.join(PKG, FILE)
     try:
         text = open(path, encoding="utf-8").read()
